@@ -179,6 +179,10 @@ TTick ==
      \* session does not count
      /\ Chk("C12") => /\ HellosOK(ev.hellos, 1, lastHello) /\ TickRefines(ev)
                       /\ Len(ev.hellos) > 0 => (Unique(LiveSet(ev)) /\ Cardinality(LiveSet(ev)) = Len(ev.live))
+                      \* ... and stop with the session: the table is swept before the enumeration block looks at it, so a
+                      \* tick that has to end the mapping session (30 s without a frame) sends nothing, and a Hello needs
+                      \* a session that is neither complete nor past its 60 s (by the monitor's own record of the table)
+                      /\ Len(ev.hellos) > 0 => (~mustEnd /\ \E e \in survivors : ~e.complete)
      /\ (Primary = "C14" /\ had /\ full.ms # 0 => TLCSet(2, TLCGet(2) \cup {<< "tick", mustEnd, mustNot >>}))
      /\ (Primary = "C12" /\ Len(ev.hellos) > 0 => TLCSet(2, TLCGet(2) \cup {l}))
      /\ lastHello' = LastHelloAfter(ev.hellos, lastHello)
